@@ -947,18 +947,18 @@ static const yytype_int16 yyrline[] =
      475,   480,   481,   487,   490,   506,   515,   557,   558,   563,
      580,   594,   608,   622,   640,   641,   647,   646,   663,   662,
      683,   682,   707,   713,   773,   774,   775,   776,   777,   778,
-     784,   805,   836,   841,   858,   863,   883,   884,   898,   899,
-     900,   901,   902,   906,   907,   921,   925,  1021,  1069,  1130,
-    1176,  1182,  1186,  1221,  1274,  1329,  1360,  1367,  1374,  1387,
-    1398,  1409,  1420,  1431,  1442,  1453,  1464,  1479,  1495,  1507,
-    1582,  1620,  1524,  1749,  1772,  1784,  1812,  1831,  1854,  1902,
-    1909,  1916,  1915,  1962,  1961,  2012,  2020,  2028,  2036,  2044,
-    2052,  2060,  2064,  2072,  2073,  2098,  2118,  2146,  2220,  2252,
-    2270,  2281,  2324,  2340,  2360,  2370,  2369,  2378,  2392,  2393,
-    2398,  2408,  2423,  2422,  2435,  2436,  2441,  2474,  2499,  2555,
-    2562,  2568,  2574,  2584,  2588,  2596,  2608,  2622,  2629,  2636,
-    2661,  2673,  2685,  2697,  2712,  2724,  2739,  2786,  2807,  2842,
-    2877,  2911,  2942,  2964,  2974,  2984,  2994,  3004,  3024,  3044
+     784,   805,   836,   844,   861,   869,   889,   890,   904,   905,
+     906,   907,   908,   912,   913,   927,   931,  1027,  1075,  1136,
+    1182,  1188,  1192,  1227,  1280,  1335,  1366,  1373,  1380,  1393,
+    1404,  1415,  1426,  1437,  1448,  1459,  1470,  1485,  1501,  1513,
+    1588,  1626,  1530,  1755,  1778,  1790,  1818,  1837,  1860,  1908,
+    1915,  1922,  1921,  1968,  1967,  2018,  2026,  2034,  2042,  2050,
+    2058,  2066,  2070,  2078,  2079,  2104,  2124,  2152,  2226,  2258,
+    2276,  2287,  2330,  2346,  2366,  2376,  2375,  2384,  2398,  2399,
+    2404,  2414,  2429,  2428,  2441,  2442,  2447,  2480,  2505,  2561,
+    2568,  2574,  2580,  2590,  2594,  2602,  2614,  2628,  2635,  2642,
+    2667,  2679,  2691,  2703,  2718,  2730,  2745,  2792,  2813,  2848,
+    2883,  2917,  2948,  2970,  2980,  2990,  3000,  3010,  3030,  3050
 };
 #endif
 
@@ -2732,12 +2732,15 @@ yyreduce:
       {
         (yyval.modifier).flags = STRING_FLAGS_BASE64;
         (yyval.modifier).alphabet = ss_new(DEFAULT_BASE64_ALPHABET);
+
+        if ((yyval.modifier).alphabet == NULL)
+          fail_with_error(ERROR_INSUFFICIENT_MEMORY);
       }
-#line 2737 "libyara/grammar.c"
+#line 2740 "libyara/grammar.c"
     break;
 
   case 53: /* string_modifier: "<base64>" '(' "text string" ')'  */
-#line 842 "libyara/grammar.y"
+#line 845 "libyara/grammar.y"
       {
         int result = ERROR_SUCCESS;
 
@@ -2754,20 +2757,23 @@ yyreduce:
         (yyval.modifier).flags = STRING_FLAGS_BASE64;
         (yyval.modifier).alphabet = (yyvsp[-1].sized_string);
       }
-#line 2758 "libyara/grammar.c"
+#line 2761 "libyara/grammar.c"
     break;
 
   case 54: /* string_modifier: "<base64wide>"  */
-#line 859 "libyara/grammar.y"
+#line 862 "libyara/grammar.y"
       {
         (yyval.modifier).flags = STRING_FLAGS_BASE64_WIDE;
         (yyval.modifier).alphabet = ss_new(DEFAULT_BASE64_ALPHABET);
+
+        if ((yyval.modifier).alphabet == NULL)
+          fail_with_error(ERROR_INSUFFICIENT_MEMORY);
       }
-#line 2767 "libyara/grammar.c"
+#line 2773 "libyara/grammar.c"
     break;
 
   case 55: /* string_modifier: "<base64wide>" '(' "text string" ')'  */
-#line 864 "libyara/grammar.y"
+#line 870 "libyara/grammar.y"
       {
         int result = ERROR_SUCCESS;
 
@@ -2784,17 +2790,17 @@ yyreduce:
         (yyval.modifier).flags = STRING_FLAGS_BASE64_WIDE;
         (yyval.modifier).alphabet = (yyvsp[-1].sized_string);
       }
-#line 2788 "libyara/grammar.c"
-    break;
-
-  case 56: /* regexp_modifiers: %empty  */
-#line 883 "libyara/grammar.y"
-                                          { (yyval.modifier).flags = 0; }
 #line 2794 "libyara/grammar.c"
     break;
 
+  case 56: /* regexp_modifiers: %empty  */
+#line 889 "libyara/grammar.y"
+                                          { (yyval.modifier).flags = 0; }
+#line 2800 "libyara/grammar.c"
+    break;
+
   case 57: /* regexp_modifiers: regexp_modifiers regexp_modifier  */
-#line 885 "libyara/grammar.y"
+#line 891 "libyara/grammar.y"
       {
         if ((yyvsp[-1].modifier).flags & (yyvsp[0].modifier).flags)
         {
@@ -2805,47 +2811,47 @@ yyreduce:
           (yyval.modifier).flags = (yyvsp[-1].modifier).flags | (yyvsp[0].modifier).flags;
         }
       }
-#line 2809 "libyara/grammar.c"
-    break;
-
-  case 58: /* regexp_modifier: "<wide>"  */
-#line 898 "libyara/grammar.y"
-                    { (yyval.modifier).flags = STRING_FLAGS_WIDE; }
 #line 2815 "libyara/grammar.c"
     break;
 
-  case 59: /* regexp_modifier: "<ascii>"  */
-#line 899 "libyara/grammar.y"
-                    { (yyval.modifier).flags = STRING_FLAGS_ASCII; }
+  case 58: /* regexp_modifier: "<wide>"  */
+#line 904 "libyara/grammar.y"
+                    { (yyval.modifier).flags = STRING_FLAGS_WIDE; }
 #line 2821 "libyara/grammar.c"
     break;
 
-  case 60: /* regexp_modifier: "<nocase>"  */
-#line 900 "libyara/grammar.y"
-                    { (yyval.modifier).flags = STRING_FLAGS_NO_CASE; }
+  case 59: /* regexp_modifier: "<ascii>"  */
+#line 905 "libyara/grammar.y"
+                    { (yyval.modifier).flags = STRING_FLAGS_ASCII; }
 #line 2827 "libyara/grammar.c"
     break;
 
-  case 61: /* regexp_modifier: "<fullword>"  */
-#line 901 "libyara/grammar.y"
-                    { (yyval.modifier).flags = STRING_FLAGS_FULL_WORD; }
+  case 60: /* regexp_modifier: "<nocase>"  */
+#line 906 "libyara/grammar.y"
+                    { (yyval.modifier).flags = STRING_FLAGS_NO_CASE; }
 #line 2833 "libyara/grammar.c"
     break;
 
-  case 62: /* regexp_modifier: "<private>"  */
-#line 902 "libyara/grammar.y"
-                    { (yyval.modifier).flags = STRING_FLAGS_PRIVATE; }
+  case 61: /* regexp_modifier: "<fullword>"  */
+#line 907 "libyara/grammar.y"
+                    { (yyval.modifier).flags = STRING_FLAGS_FULL_WORD; }
 #line 2839 "libyara/grammar.c"
     break;
 
-  case 63: /* hex_modifiers: %empty  */
-#line 906 "libyara/grammar.y"
-                                          { (yyval.modifier).flags = 0; }
+  case 62: /* regexp_modifier: "<private>"  */
+#line 908 "libyara/grammar.y"
+                    { (yyval.modifier).flags = STRING_FLAGS_PRIVATE; }
 #line 2845 "libyara/grammar.c"
     break;
 
+  case 63: /* hex_modifiers: %empty  */
+#line 912 "libyara/grammar.y"
+                                          { (yyval.modifier).flags = 0; }
+#line 2851 "libyara/grammar.c"
+    break;
+
   case 64: /* hex_modifiers: hex_modifiers hex_modifier  */
-#line 908 "libyara/grammar.y"
+#line 914 "libyara/grammar.y"
       {
         if ((yyvsp[-1].modifier).flags & (yyvsp[0].modifier).flags)
         {
@@ -2856,17 +2862,17 @@ yyreduce:
           (yyval.modifier).flags = (yyvsp[-1].modifier).flags | (yyvsp[0].modifier).flags;
         }
       }
-#line 2860 "libyara/grammar.c"
-    break;
-
-  case 65: /* hex_modifier: "<private>"  */
-#line 921 "libyara/grammar.y"
-                    { (yyval.modifier).flags = STRING_FLAGS_PRIVATE; }
 #line 2866 "libyara/grammar.c"
     break;
 
+  case 65: /* hex_modifier: "<private>"  */
+#line 927 "libyara/grammar.y"
+                    { (yyval.modifier).flags = STRING_FLAGS_PRIVATE; }
+#line 2872 "libyara/grammar.c"
+    break;
+
   case 66: /* identifier: "identifier"  */
-#line 926 "libyara/grammar.y"
+#line 932 "libyara/grammar.y"
       {
         YR_EXPRESSION expr;
 
@@ -2962,11 +2968,11 @@ yyreduce:
 
         fail_if_error(result);
       }
-#line 2966 "libyara/grammar.c"
+#line 2972 "libyara/grammar.c"
     break;
 
   case 67: /* identifier: identifier '.' "identifier"  */
-#line 1022 "libyara/grammar.y"
+#line 1028 "libyara/grammar.y"
       {
         int result = ERROR_SUCCESS;
         YR_OBJECT* field = NULL;
@@ -3014,11 +3020,11 @@ yyreduce:
 
         fail_if_error(result);
       }
-#line 3018 "libyara/grammar.c"
+#line 3024 "libyara/grammar.c"
     break;
 
   case 68: /* identifier: identifier '[' primary_expression ']'  */
-#line 1070 "libyara/grammar.y"
+#line 1076 "libyara/grammar.y"
       {
         int result = ERROR_SUCCESS;
         YR_OBJECT_ARRAY* array;
@@ -3078,11 +3084,11 @@ yyreduce:
 
         fail_if_error(result);
       }
-#line 3082 "libyara/grammar.c"
+#line 3088 "libyara/grammar.c"
     break;
 
   case 69: /* identifier: identifier '(' arguments ')'  */
-#line 1131 "libyara/grammar.y"
+#line 1137 "libyara/grammar.y"
       {
         YR_ARENA_REF ref = YR_ARENA_NULL_REF;
         int result = ERROR_SUCCESS;
@@ -3123,28 +3129,28 @@ yyreduce:
 
         fail_if_error(result);
       }
-#line 3127 "libyara/grammar.c"
+#line 3133 "libyara/grammar.c"
     break;
 
   case 70: /* arguments: %empty  */
-#line 1176 "libyara/grammar.y"
+#line 1182 "libyara/grammar.y"
       {
         (yyval.c_string) = yr_strdup("");
 
         if ((yyval.c_string) == NULL)
           fail_with_error(ERROR_INSUFFICIENT_MEMORY);
       }
-#line 3138 "libyara/grammar.c"
-    break;
-
-  case 71: /* arguments: arguments_list  */
-#line 1182 "libyara/grammar.y"
-                      { (yyval.c_string) = (yyvsp[0].c_string); }
 #line 3144 "libyara/grammar.c"
     break;
 
+  case 71: /* arguments: arguments_list  */
+#line 1188 "libyara/grammar.y"
+                      { (yyval.c_string) = (yyvsp[0].c_string); }
+#line 3150 "libyara/grammar.c"
+    break;
+
   case 72: /* arguments_list: expression  */
-#line 1187 "libyara/grammar.y"
+#line 1193 "libyara/grammar.y"
       {
         (yyval.c_string) = (char*) yr_malloc(YR_MAX_FUNCTION_ARGS + 1);
 
@@ -3179,11 +3185,11 @@ yyreduce:
             assert(compiler->last_error != ERROR_SUCCESS);
         }
       }
-#line 3183 "libyara/grammar.c"
+#line 3189 "libyara/grammar.c"
     break;
 
   case 73: /* arguments_list: arguments_list ',' expression  */
-#line 1222 "libyara/grammar.y"
+#line 1228 "libyara/grammar.y"
       {
         int result = ERROR_SUCCESS;
 
@@ -3232,11 +3238,11 @@ yyreduce:
 
         (yyval.c_string) = (yyvsp[-2].c_string);
       }
-#line 3236 "libyara/grammar.c"
+#line 3242 "libyara/grammar.c"
     break;
 
   case 74: /* regexp: "regular expression"  */
-#line 1275 "libyara/grammar.y"
+#line 1281 "libyara/grammar.y"
       {
         YR_ARENA_REF re_ref;
         RE_ERROR error;
@@ -3287,11 +3293,11 @@ yyreduce:
 
         (yyval.expression).type = EXPRESSION_TYPE_REGEXP;
       }
-#line 3291 "libyara/grammar.c"
+#line 3297 "libyara/grammar.c"
     break;
 
   case 75: /* boolean_expression: expression  */
-#line 1330 "libyara/grammar.y"
+#line 1336 "libyara/grammar.y"
       {
         if ((yyvsp[0].expression).type == EXPRESSION_TYPE_STRING)
         {
@@ -3319,33 +3325,33 @@ yyreduce:
 
         (yyval.expression).type = EXPRESSION_TYPE_BOOLEAN;
       }
-#line 3323 "libyara/grammar.c"
+#line 3329 "libyara/grammar.c"
     break;
 
   case 76: /* expression: "<true>"  */
-#line 1361 "libyara/grammar.y"
+#line 1367 "libyara/grammar.y"
       {
         fail_if_error(yr_parser_emit_push_const(yyscanner, 1));
 
         (yyval.expression).type = EXPRESSION_TYPE_BOOLEAN;
         (yyval.expression).required_strings.count = 0;
       }
-#line 3334 "libyara/grammar.c"
+#line 3340 "libyara/grammar.c"
     break;
 
   case 77: /* expression: "<false>"  */
-#line 1368 "libyara/grammar.y"
+#line 1374 "libyara/grammar.y"
       {
         fail_if_error(yr_parser_emit_push_const(yyscanner, 0));
 
         (yyval.expression).type = EXPRESSION_TYPE_BOOLEAN;
         (yyval.expression).required_strings.count = 0;
       }
-#line 3345 "libyara/grammar.c"
+#line 3351 "libyara/grammar.c"
     break;
 
   case 78: /* expression: primary_expression "<matches>" regexp  */
-#line 1375 "libyara/grammar.y"
+#line 1381 "libyara/grammar.y"
       {
         check_type((yyvsp[-2].expression), EXPRESSION_TYPE_STRING, "matches");
         check_type((yyvsp[0].expression), EXPRESSION_TYPE_REGEXP, "matches");
@@ -3358,11 +3364,11 @@ yyreduce:
         (yyval.expression).type = EXPRESSION_TYPE_BOOLEAN;
         (yyval.expression).required_strings.count = 0;
       }
-#line 3362 "libyara/grammar.c"
+#line 3368 "libyara/grammar.c"
     break;
 
   case 79: /* expression: primary_expression "<contains>" primary_expression  */
-#line 1388 "libyara/grammar.y"
+#line 1394 "libyara/grammar.y"
       {
         check_type((yyvsp[-2].expression), EXPRESSION_TYPE_STRING, "contains");
         check_type((yyvsp[0].expression), EXPRESSION_TYPE_STRING, "contains");
@@ -3373,11 +3379,11 @@ yyreduce:
         (yyval.expression).type = EXPRESSION_TYPE_BOOLEAN;
         (yyval.expression).required_strings.count = 0;
       }
-#line 3377 "libyara/grammar.c"
+#line 3383 "libyara/grammar.c"
     break;
 
   case 80: /* expression: primary_expression "<icontains>" primary_expression  */
-#line 1399 "libyara/grammar.y"
+#line 1405 "libyara/grammar.y"
       {
         check_type((yyvsp[-2].expression), EXPRESSION_TYPE_STRING, "icontains");
         check_type((yyvsp[0].expression), EXPRESSION_TYPE_STRING, "icontains");
@@ -3388,11 +3394,11 @@ yyreduce:
         (yyval.expression).type = EXPRESSION_TYPE_BOOLEAN;
         (yyval.expression).required_strings.count = 0;
       }
-#line 3392 "libyara/grammar.c"
+#line 3398 "libyara/grammar.c"
     break;
 
   case 81: /* expression: primary_expression "<startswith>" primary_expression  */
-#line 1410 "libyara/grammar.y"
+#line 1416 "libyara/grammar.y"
       {
         check_type((yyvsp[-2].expression), EXPRESSION_TYPE_STRING, "startswith");
         check_type((yyvsp[0].expression), EXPRESSION_TYPE_STRING, "startswith");
@@ -3403,11 +3409,11 @@ yyreduce:
         (yyval.expression).type = EXPRESSION_TYPE_BOOLEAN;
         (yyval.expression).required_strings.count = 0;
       }
-#line 3407 "libyara/grammar.c"
+#line 3413 "libyara/grammar.c"
     break;
 
   case 82: /* expression: primary_expression "<istartswith>" primary_expression  */
-#line 1421 "libyara/grammar.y"
+#line 1427 "libyara/grammar.y"
       {
         check_type((yyvsp[-2].expression), EXPRESSION_TYPE_STRING, "istartswith");
         check_type((yyvsp[0].expression), EXPRESSION_TYPE_STRING, "istartswith");
@@ -3418,11 +3424,11 @@ yyreduce:
         (yyval.expression).type = EXPRESSION_TYPE_BOOLEAN;
         (yyval.expression).required_strings.count = 0;
       }
-#line 3422 "libyara/grammar.c"
+#line 3428 "libyara/grammar.c"
     break;
 
   case 83: /* expression: primary_expression "<endswith>" primary_expression  */
-#line 1432 "libyara/grammar.y"
+#line 1438 "libyara/grammar.y"
       {
         check_type((yyvsp[-2].expression), EXPRESSION_TYPE_STRING, "endswith");
         check_type((yyvsp[0].expression), EXPRESSION_TYPE_STRING, "endswith");
@@ -3433,11 +3439,11 @@ yyreduce:
         (yyval.expression).type = EXPRESSION_TYPE_BOOLEAN;
         (yyval.expression).required_strings.count = 0;
       }
-#line 3437 "libyara/grammar.c"
+#line 3443 "libyara/grammar.c"
     break;
 
   case 84: /* expression: primary_expression "<iendswith>" primary_expression  */
-#line 1443 "libyara/grammar.y"
+#line 1449 "libyara/grammar.y"
       {
         check_type((yyvsp[-2].expression), EXPRESSION_TYPE_STRING, "iendswith");
         check_type((yyvsp[0].expression), EXPRESSION_TYPE_STRING, "iendswith");
@@ -3448,11 +3454,11 @@ yyreduce:
         (yyval.expression).type = EXPRESSION_TYPE_BOOLEAN;
         (yyval.expression).required_strings.count = 0;
       }
-#line 3452 "libyara/grammar.c"
+#line 3458 "libyara/grammar.c"
     break;
 
   case 85: /* expression: primary_expression "<iequals>" primary_expression  */
-#line 1454 "libyara/grammar.y"
+#line 1460 "libyara/grammar.y"
       {
         check_type((yyvsp[-2].expression), EXPRESSION_TYPE_STRING, "iequals");
         check_type((yyvsp[0].expression), EXPRESSION_TYPE_STRING, "iequals");
@@ -3463,11 +3469,11 @@ yyreduce:
         (yyval.expression).type = EXPRESSION_TYPE_BOOLEAN;
         (yyval.expression).required_strings.count = 0;
       }
-#line 3467 "libyara/grammar.c"
+#line 3473 "libyara/grammar.c"
     break;
 
   case 86: /* expression: "string identifier"  */
-#line 1465 "libyara/grammar.y"
+#line 1471 "libyara/grammar.y"
       {
         int result = yr_parser_reduce_string_identifier(
             yyscanner,
@@ -3482,11 +3488,11 @@ yyreduce:
         (yyval.expression).type = EXPRESSION_TYPE_BOOLEAN;
         (yyval.expression).required_strings.count = 1;
       }
-#line 3486 "libyara/grammar.c"
+#line 3492 "libyara/grammar.c"
     break;
 
   case 87: /* expression: "string identifier" "<at>" primary_expression  */
-#line 1480 "libyara/grammar.y"
+#line 1486 "libyara/grammar.y"
       {
         int result;
 
@@ -3502,11 +3508,11 @@ yyreduce:
         (yyval.expression).required_strings.count = 1;
         (yyval.expression).type = EXPRESSION_TYPE_BOOLEAN;
       }
-#line 3506 "libyara/grammar.c"
+#line 3512 "libyara/grammar.c"
     break;
 
   case 88: /* expression: "string identifier" "<in>" range  */
-#line 1496 "libyara/grammar.y"
+#line 1502 "libyara/grammar.y"
       {
         int result = yr_parser_reduce_string_identifier(
             yyscanner, (yyvsp[-2].c_string), OP_FOUND_IN, YR_UNDEFINED);
@@ -3518,11 +3524,11 @@ yyreduce:
         (yyval.expression).required_strings.count = 1;
         (yyval.expression).type = EXPRESSION_TYPE_BOOLEAN;
       }
-#line 3522 "libyara/grammar.c"
+#line 3528 "libyara/grammar.c"
     break;
 
   case 89: /* expression: "<for>" for_expression error  */
-#line 1508 "libyara/grammar.y"
+#line 1514 "libyara/grammar.y"
       {
         // Free all the loop variable identifiers, including the variables for
         // the current loop (represented by loop_index), and set loop_index to
@@ -3539,11 +3545,11 @@ yyreduce:
         compiler->loop_index = -1;
         YYERROR;
       }
-#line 3543 "libyara/grammar.c"
+#line 3549 "libyara/grammar.c"
     break;
 
   case 90: /* $@6: %empty  */
-#line 1582 "libyara/grammar.y"
+#line 1588 "libyara/grammar.y"
       {
         // var_frame is used for accessing local variables used in this loop.
         // All local variables are accessed using var_frame as a reference,
@@ -3581,11 +3587,11 @@ yyreduce:
         fail_if_error(yr_parser_emit_with_arg(
             yyscanner, OP_POP_M, var_frame + 2, NULL, NULL));
       }
-#line 3585 "libyara/grammar.c"
+#line 3591 "libyara/grammar.c"
     break;
 
   case 91: /* $@7: %empty  */
-#line 1620 "libyara/grammar.y"
+#line 1626 "libyara/grammar.y"
       {
         YR_LOOP_CONTEXT* loop_ctx = &compiler->loop[compiler->loop_index];
         YR_FIXUP* fixup;
@@ -3634,11 +3640,11 @@ yyreduce:
 
         loop_ctx->start_ref = loop_start_ref;
       }
-#line 3638 "libyara/grammar.c"
+#line 3644 "libyara/grammar.c"
     break;
 
   case 92: /* expression: "<for>" for_expression $@6 for_iteration ':' $@7 '(' boolean_expression ')'  */
-#line 1669 "libyara/grammar.y"
+#line 1675 "libyara/grammar.y"
       {
         int32_t jmp_offset;
         YR_FIXUP* fixup;
@@ -3719,11 +3725,11 @@ yyreduce:
         (yyval.expression).type = EXPRESSION_TYPE_BOOLEAN;
         (yyval.expression).required_strings.count = 0;
       }
-#line 3723 "libyara/grammar.c"
+#line 3729 "libyara/grammar.c"
     break;
 
   case 93: /* expression: for_expression "<of>" string_set  */
-#line 1750 "libyara/grammar.y"
+#line 1756 "libyara/grammar.y"
       {
         if ((yyvsp[-2].expression).type == EXPRESSION_TYPE_INTEGER && (yyvsp[-2].expression).value.integer > (yyvsp[0].integer))
         {
@@ -3746,11 +3752,11 @@ yyreduce:
 
         (yyval.expression).type = EXPRESSION_TYPE_BOOLEAN;
       }
-#line 3750 "libyara/grammar.c"
+#line 3756 "libyara/grammar.c"
     break;
 
   case 94: /* expression: for_expression "<of>" rule_set  */
-#line 1773 "libyara/grammar.y"
+#line 1779 "libyara/grammar.y"
       {
         if ((yyvsp[-2].expression).type == EXPRESSION_TYPE_INTEGER && (yyvsp[-2].expression).value.integer > (yyvsp[0].integer))
         {
@@ -3762,11 +3768,11 @@ yyreduce:
         (yyval.expression).type = EXPRESSION_TYPE_BOOLEAN;
         (yyval.expression).required_strings.count = 0;
       }
-#line 3766 "libyara/grammar.c"
+#line 3772 "libyara/grammar.c"
     break;
 
   case 95: /* expression: primary_expression '%' "<of>" string_set  */
-#line 1785 "libyara/grammar.y"
+#line 1791 "libyara/grammar.y"
       {
         check_type((yyvsp[-3].expression), EXPRESSION_TYPE_INTEGER, "%");
 
@@ -3794,11 +3800,11 @@ yyreduce:
 
         yr_parser_emit_with_arg(yyscanner, OP_OF_PERCENT, OF_STRING_SET, NULL, NULL);
       }
-#line 3798 "libyara/grammar.c"
+#line 3804 "libyara/grammar.c"
     break;
 
   case 96: /* expression: primary_expression '%' "<of>" rule_set  */
-#line 1813 "libyara/grammar.y"
+#line 1819 "libyara/grammar.y"
       {
         check_type((yyvsp[-3].expression), EXPRESSION_TYPE_INTEGER, "%");
 
@@ -3817,11 +3823,11 @@ yyreduce:
 
         yr_parser_emit_with_arg(yyscanner, OP_OF_PERCENT, OF_RULE_SET, NULL, NULL);
       }
-#line 3821 "libyara/grammar.c"
+#line 3827 "libyara/grammar.c"
     break;
 
   case 97: /* expression: for_expression "<of>" string_set "<in>" range  */
-#line 1832 "libyara/grammar.y"
+#line 1838 "libyara/grammar.y"
       {
         if ((yyvsp[-4].expression).type == EXPRESSION_TYPE_INTEGER && (yyvsp[-4].expression).value.integer > (yyvsp[-2].integer))
         {
@@ -3844,11 +3850,11 @@ yyreduce:
 
         (yyval.expression).type = EXPRESSION_TYPE_BOOLEAN;
       }
-#line 3848 "libyara/grammar.c"
+#line 3854 "libyara/grammar.c"
     break;
 
   case 98: /* expression: for_expression "<of>" string_set "<at>" primary_expression  */
-#line 1855 "libyara/grammar.y"
+#line 1861 "libyara/grammar.y"
       {
         if ((yyvsp[0].expression).type != EXPRESSION_TYPE_INTEGER)
         {
@@ -3896,32 +3902,32 @@ yyreduce:
 
         (yyval.expression).type = EXPRESSION_TYPE_BOOLEAN;
       }
-#line 3900 "libyara/grammar.c"
+#line 3906 "libyara/grammar.c"
     break;
 
   case 99: /* expression: "<not>" boolean_expression  */
-#line 1903 "libyara/grammar.y"
+#line 1909 "libyara/grammar.y"
       {
         yr_parser_emit(yyscanner, OP_NOT, NULL);
 
         (yyval.expression).type = EXPRESSION_TYPE_BOOLEAN;
         (yyval.expression).required_strings.count = 0;
       }
-#line 3911 "libyara/grammar.c"
+#line 3917 "libyara/grammar.c"
     break;
 
   case 100: /* expression: "<defined>" boolean_expression  */
-#line 1910 "libyara/grammar.y"
+#line 1916 "libyara/grammar.y"
       {
         yr_parser_emit(yyscanner, OP_DEFINED, NULL);
         (yyval.expression).type = EXPRESSION_TYPE_BOOLEAN;
         (yyval.expression).required_strings.count = 0;
       }
-#line 3921 "libyara/grammar.c"
+#line 3927 "libyara/grammar.c"
     break;
 
   case 101: /* $@8: %empty  */
-#line 1916 "libyara/grammar.y"
+#line 1922 "libyara/grammar.y"
       {
         YR_FIXUP* fixup;
         YR_ARENA_REF jmp_offset_ref;
@@ -3943,11 +3949,11 @@ yyreduce:
         fixup->next = compiler->fixup_stack_head;
         compiler->fixup_stack_head = fixup;
       }
-#line 3947 "libyara/grammar.c"
+#line 3953 "libyara/grammar.c"
     break;
 
   case 102: /* expression: boolean_expression "<and>" $@8 boolean_expression  */
-#line 1938 "libyara/grammar.y"
+#line 1944 "libyara/grammar.y"
       {
         YR_FIXUP* fixup;
 
@@ -3971,11 +3977,11 @@ yyreduce:
         (yyval.expression).type = EXPRESSION_TYPE_BOOLEAN;
         (yyval.expression).required_strings.count = (yyvsp[0].expression).required_strings.count + (yyvsp[-3].expression).required_strings.count;
       }
-#line 3975 "libyara/grammar.c"
+#line 3981 "libyara/grammar.c"
     break;
 
   case 103: /* $@9: %empty  */
-#line 1962 "libyara/grammar.y"
+#line 1968 "libyara/grammar.y"
       {
         YR_FIXUP* fixup;
         YR_ARENA_REF jmp_offset_ref;
@@ -3996,11 +4002,11 @@ yyreduce:
         fixup->next = compiler->fixup_stack_head;
         compiler->fixup_stack_head = fixup;
       }
-#line 4000 "libyara/grammar.c"
+#line 4006 "libyara/grammar.c"
     break;
 
   case 104: /* expression: boolean_expression "<or>" $@9 boolean_expression  */
-#line 1983 "libyara/grammar.y"
+#line 1989 "libyara/grammar.y"
       {
         YR_FIXUP* fixup;
 
@@ -4030,11 +4036,11 @@ yyreduce:
           (yyval.expression).required_strings.count = (yyvsp[-3].expression).required_strings.count;
         }
       }
-#line 4034 "libyara/grammar.c"
+#line 4040 "libyara/grammar.c"
     break;
 
   case 105: /* expression: primary_expression "<" primary_expression  */
-#line 2013 "libyara/grammar.y"
+#line 2019 "libyara/grammar.y"
       {
         fail_if_error(yr_parser_reduce_operation(
             yyscanner, "<", (yyvsp[-2].expression), (yyvsp[0].expression)));
@@ -4042,11 +4048,11 @@ yyreduce:
         (yyval.expression).type = EXPRESSION_TYPE_BOOLEAN;
         (yyval.expression).required_strings.count = 0;
       }
-#line 4046 "libyara/grammar.c"
+#line 4052 "libyara/grammar.c"
     break;
 
   case 106: /* expression: primary_expression ">" primary_expression  */
-#line 2021 "libyara/grammar.y"
+#line 2027 "libyara/grammar.y"
       {
         fail_if_error(yr_parser_reduce_operation(
             yyscanner, ">", (yyvsp[-2].expression), (yyvsp[0].expression)));
@@ -4054,11 +4060,11 @@ yyreduce:
         (yyval.expression).type = EXPRESSION_TYPE_BOOLEAN;
         (yyval.expression).required_strings.count = 0;
       }
-#line 4058 "libyara/grammar.c"
+#line 4064 "libyara/grammar.c"
     break;
 
   case 107: /* expression: primary_expression "<=" primary_expression  */
-#line 2029 "libyara/grammar.y"
+#line 2035 "libyara/grammar.y"
       {
         fail_if_error(yr_parser_reduce_operation(
             yyscanner, "<=", (yyvsp[-2].expression), (yyvsp[0].expression)));
@@ -4066,11 +4072,11 @@ yyreduce:
         (yyval.expression).type = EXPRESSION_TYPE_BOOLEAN;
         (yyval.expression).required_strings.count = 0;
       }
-#line 4070 "libyara/grammar.c"
+#line 4076 "libyara/grammar.c"
     break;
 
   case 108: /* expression: primary_expression ">=" primary_expression  */
-#line 2037 "libyara/grammar.y"
+#line 2043 "libyara/grammar.y"
       {
         fail_if_error(yr_parser_reduce_operation(
             yyscanner, ">=", (yyvsp[-2].expression), (yyvsp[0].expression)));
@@ -4078,11 +4084,11 @@ yyreduce:
         (yyval.expression).type = EXPRESSION_TYPE_BOOLEAN;
         (yyval.expression).required_strings.count = 0;
       }
-#line 4082 "libyara/grammar.c"
+#line 4088 "libyara/grammar.c"
     break;
 
   case 109: /* expression: primary_expression "==" primary_expression  */
-#line 2045 "libyara/grammar.y"
+#line 2051 "libyara/grammar.y"
       {
         fail_if_error(yr_parser_reduce_operation(
             yyscanner, "==", (yyvsp[-2].expression), (yyvsp[0].expression)));
@@ -4090,11 +4096,11 @@ yyreduce:
         (yyval.expression).type = EXPRESSION_TYPE_BOOLEAN;
         (yyval.expression).required_strings.count = 0;
       }
-#line 4094 "libyara/grammar.c"
+#line 4100 "libyara/grammar.c"
     break;
 
   case 110: /* expression: primary_expression "!=" primary_expression  */
-#line 2053 "libyara/grammar.y"
+#line 2059 "libyara/grammar.y"
       {
         fail_if_error(yr_parser_reduce_operation(
             yyscanner, "!=", (yyvsp[-2].expression), (yyvsp[0].expression)));
@@ -4102,33 +4108,33 @@ yyreduce:
         (yyval.expression).type = EXPRESSION_TYPE_BOOLEAN;
         (yyval.expression).required_strings.count = 0;
       }
-#line 4106 "libyara/grammar.c"
+#line 4112 "libyara/grammar.c"
     break;
 
   case 111: /* expression: primary_expression  */
-#line 2061 "libyara/grammar.y"
+#line 2067 "libyara/grammar.y"
       {
         (yyval.expression) = (yyvsp[0].expression);
       }
-#line 4114 "libyara/grammar.c"
+#line 4120 "libyara/grammar.c"
     break;
 
   case 112: /* expression: '(' expression ')'  */
-#line 2065 "libyara/grammar.y"
+#line 2071 "libyara/grammar.y"
       {
         (yyval.expression) = (yyvsp[-1].expression);
       }
-#line 4122 "libyara/grammar.c"
-    break;
-
-  case 113: /* for_iteration: for_variables "<in>" iterator  */
-#line 2072 "libyara/grammar.y"
-                                  { (yyval.integer) = FOR_ITERATION_ITERATOR; }
 #line 4128 "libyara/grammar.c"
     break;
 
+  case 113: /* for_iteration: for_variables "<in>" iterator  */
+#line 2078 "libyara/grammar.y"
+                                  { (yyval.integer) = FOR_ITERATION_ITERATOR; }
+#line 4134 "libyara/grammar.c"
+    break;
+
   case 114: /* for_iteration: "<of>" string_iterator  */
-#line 2074 "libyara/grammar.y"
+#line 2080 "libyara/grammar.y"
       {
         int var_frame;
         int result = ERROR_SUCCESS;
@@ -4149,11 +4155,11 @@ yyreduce:
 
         (yyval.integer) = FOR_ITERATION_STRING_SET;
       }
-#line 4153 "libyara/grammar.c"
+#line 4159 "libyara/grammar.c"
     break;
 
   case 115: /* for_variables: "identifier"  */
-#line 2099 "libyara/grammar.y"
+#line 2105 "libyara/grammar.y"
       {
         int result = ERROR_SUCCESS;
 
@@ -4173,11 +4179,11 @@ yyreduce:
 
         assert(loop_ctx->vars_count <= YR_MAX_LOOP_VARS);
       }
-#line 4177 "libyara/grammar.c"
+#line 4183 "libyara/grammar.c"
     break;
 
   case 116: /* for_variables: for_variables ',' "identifier"  */
-#line 2119 "libyara/grammar.y"
+#line 2125 "libyara/grammar.y"
       {
         int result = ERROR_SUCCESS;
 
@@ -4202,11 +4208,11 @@ yyreduce:
 
         loop_ctx->vars[loop_ctx->vars_count++].identifier.ptr = (yyvsp[0].c_string);
       }
-#line 4206 "libyara/grammar.c"
+#line 4212 "libyara/grammar.c"
     break;
 
   case 117: /* iterator: identifier  */
-#line 2147 "libyara/grammar.y"
+#line 2153 "libyara/grammar.y"
       {
         YR_LOOP_CONTEXT* loop_ctx = &compiler->loop[compiler->loop_index];
 
@@ -4280,11 +4286,11 @@ yyreduce:
 
         fail_if_error(result);
       }
-#line 4284 "libyara/grammar.c"
+#line 4290 "libyara/grammar.c"
     break;
 
   case 118: /* iterator: set  */
-#line 2221 "libyara/grammar.y"
+#line 2227 "libyara/grammar.y"
       {
         int result = ERROR_SUCCESS;
 
@@ -4312,11 +4318,11 @@ yyreduce:
 
         fail_if_error(result);
       }
-#line 4316 "libyara/grammar.c"
+#line 4322 "libyara/grammar.c"
     break;
 
   case 119: /* set: '(' enumeration ')'  */
-#line 2253 "libyara/grammar.y"
+#line 2259 "libyara/grammar.y"
       {
         // $2.count contains the number of items in the enumeration
         fail_if_error(yr_parser_emit_push_const(yyscanner, (yyvsp[-1].enumeration).count));
@@ -4334,22 +4340,22 @@ yyreduce:
 
         (yyval.enumeration).type = (yyvsp[-1].enumeration).type;
       }
-#line 4338 "libyara/grammar.c"
+#line 4344 "libyara/grammar.c"
     break;
 
   case 120: /* set: range  */
-#line 2271 "libyara/grammar.y"
+#line 2277 "libyara/grammar.y"
       {
         fail_if_error(yr_parser_emit(
             yyscanner, OP_ITER_START_INT_RANGE, NULL));
 
         (yyval.enumeration).type = EXPRESSION_TYPE_INTEGER;
       }
-#line 4349 "libyara/grammar.c"
+#line 4355 "libyara/grammar.c"
     break;
 
   case 121: /* range: '(' primary_expression ".." primary_expression ')'  */
-#line 2282 "libyara/grammar.y"
+#line 2288 "libyara/grammar.y"
       {
         int result = ERROR_SUCCESS;
 
@@ -4388,11 +4394,11 @@ yyreduce:
 
         fail_if_error(result);
       }
-#line 4392 "libyara/grammar.c"
+#line 4398 "libyara/grammar.c"
     break;
 
   case 122: /* enumeration: primary_expression  */
-#line 2325 "libyara/grammar.y"
+#line 2331 "libyara/grammar.y"
       {
         int result = ERROR_SUCCESS;
 
@@ -4408,11 +4414,11 @@ yyreduce:
         (yyval.enumeration).type = (yyvsp[0].expression).type;
         (yyval.enumeration).count = 1;
       }
-#line 4412 "libyara/grammar.c"
+#line 4418 "libyara/grammar.c"
     break;
 
   case 123: /* enumeration: enumeration ',' primary_expression  */
-#line 2341 "libyara/grammar.y"
+#line 2347 "libyara/grammar.y"
       {
         int result = ERROR_SUCCESS;
 
@@ -4428,38 +4434,38 @@ yyreduce:
         (yyval.enumeration).type = (yyvsp[-2].enumeration).type;
         (yyval.enumeration).count = (yyvsp[-2].enumeration).count + 1;
       }
-#line 4432 "libyara/grammar.c"
+#line 4438 "libyara/grammar.c"
     break;
 
   case 124: /* string_iterator: string_set  */
-#line 2361 "libyara/grammar.y"
+#line 2367 "libyara/grammar.y"
       {
         fail_if_error(yr_parser_emit_push_const(yyscanner, (yyvsp[0].integer)));
         fail_if_error(yr_parser_emit(yyscanner, OP_ITER_START_STRING_SET,
             NULL));
       }
-#line 4442 "libyara/grammar.c"
+#line 4448 "libyara/grammar.c"
     break;
 
   case 125: /* $@10: %empty  */
-#line 2370 "libyara/grammar.y"
+#line 2376 "libyara/grammar.y"
       {
         // Push end-of-list marker
         yr_parser_emit_push_const(yyscanner, YR_UNDEFINED);
       }
-#line 4451 "libyara/grammar.c"
+#line 4457 "libyara/grammar.c"
     break;
 
   case 126: /* string_set: '(' $@10 string_enumeration ')'  */
-#line 2375 "libyara/grammar.y"
+#line 2381 "libyara/grammar.y"
       {
         (yyval.integer) = (yyvsp[-1].integer);
       }
-#line 4459 "libyara/grammar.c"
+#line 4465 "libyara/grammar.c"
     break;
 
   case 127: /* string_set: "<them>"  */
-#line 2379 "libyara/grammar.y"
+#line 2385 "libyara/grammar.y"
       {
         fail_if_error(yr_parser_emit_push_const(yyscanner, YR_UNDEFINED));
 
@@ -4469,23 +4475,23 @@ yyreduce:
 
         (yyval.integer) = count;
       }
-#line 4473 "libyara/grammar.c"
-    break;
-
-  case 128: /* string_enumeration: string_enumeration_item  */
-#line 2392 "libyara/grammar.y"
-                              { (yyval.integer) = (yyvsp[0].integer); }
 #line 4479 "libyara/grammar.c"
     break;
 
-  case 129: /* string_enumeration: string_enumeration ',' string_enumeration_item  */
-#line 2393 "libyara/grammar.y"
-                                                     { (yyval.integer) = (yyvsp[-2].integer) + (yyvsp[0].integer); }
+  case 128: /* string_enumeration: string_enumeration_item  */
+#line 2398 "libyara/grammar.y"
+                              { (yyval.integer) = (yyvsp[0].integer); }
 #line 4485 "libyara/grammar.c"
     break;
 
-  case 130: /* string_enumeration_item: "string identifier"  */
+  case 129: /* string_enumeration: string_enumeration ',' string_enumeration_item  */
 #line 2399 "libyara/grammar.y"
+                                                     { (yyval.integer) = (yyvsp[-2].integer) + (yyvsp[0].integer); }
+#line 4491 "libyara/grammar.c"
+    break;
+
+  case 130: /* string_enumeration_item: "string identifier"  */
+#line 2405 "libyara/grammar.y"
       {
         int count = 0;
         int result = yr_parser_emit_pushes_for_strings(yyscanner, (yyvsp[0].c_string), &count);
@@ -4495,11 +4501,11 @@ yyreduce:
 
         (yyval.integer) = count;
       }
-#line 4499 "libyara/grammar.c"
+#line 4505 "libyara/grammar.c"
     break;
 
   case 131: /* string_enumeration_item: "string identifier with wildcard"  */
-#line 2409 "libyara/grammar.y"
+#line 2415 "libyara/grammar.y"
       {
         int count = 0;
         int result = yr_parser_emit_pushes_for_strings(yyscanner, (yyvsp[0].c_string), &count);
@@ -4509,40 +4515,40 @@ yyreduce:
 
         (yyval.integer) = count;
       }
-#line 4513 "libyara/grammar.c"
+#line 4519 "libyara/grammar.c"
     break;
 
   case 132: /* $@11: %empty  */
-#line 2423 "libyara/grammar.y"
+#line 2429 "libyara/grammar.y"
       {
         // Push end-of-list marker
         yr_parser_emit_push_const(yyscanner, YR_UNDEFINED);
       }
-#line 4522 "libyara/grammar.c"
+#line 4528 "libyara/grammar.c"
     break;
 
   case 133: /* rule_set: '(' $@11 rule_enumeration ')'  */
-#line 2428 "libyara/grammar.y"
+#line 2434 "libyara/grammar.y"
       {
         (yyval.integer) = (yyvsp[-1].integer);
       }
-#line 4530 "libyara/grammar.c"
-    break;
-
-  case 134: /* rule_enumeration: rule_enumeration_item  */
-#line 2435 "libyara/grammar.y"
-                            { (yyval.integer) = (yyvsp[0].integer); }
 #line 4536 "libyara/grammar.c"
     break;
 
-  case 135: /* rule_enumeration: rule_enumeration ',' rule_enumeration_item  */
-#line 2436 "libyara/grammar.y"
-                                                 { (yyval.integer) = (yyvsp[-2].integer) + (yyvsp[0].integer); }
+  case 134: /* rule_enumeration: rule_enumeration_item  */
+#line 2441 "libyara/grammar.y"
+                            { (yyval.integer) = (yyvsp[0].integer); }
 #line 4542 "libyara/grammar.c"
     break;
 
-  case 136: /* rule_enumeration_item: "identifier"  */
+  case 135: /* rule_enumeration: rule_enumeration ',' rule_enumeration_item  */
 #line 2442 "libyara/grammar.y"
+                                                 { (yyval.integer) = (yyvsp[-2].integer) + (yyvsp[0].integer); }
+#line 4548 "libyara/grammar.c"
+    break;
+
+  case 136: /* rule_enumeration_item: "identifier"  */
+#line 2448 "libyara/grammar.y"
       {
         int result = ERROR_SUCCESS;
 
@@ -4575,11 +4581,11 @@ yyreduce:
 
         (yyval.integer) = 1;
       }
-#line 4579 "libyara/grammar.c"
+#line 4585 "libyara/grammar.c"
     break;
 
   case 137: /* rule_enumeration_item: "identifier" '*'  */
-#line 2475 "libyara/grammar.y"
+#line 2481 "libyara/grammar.y"
       {
         int count = 0;
         YR_NAMESPACE* ns = (YR_NAMESPACE*) yr_arena_get_ptr(
@@ -4600,11 +4606,11 @@ yyreduce:
 
         (yyval.integer) = count;
       }
-#line 4604 "libyara/grammar.c"
+#line 4610 "libyara/grammar.c"
     break;
 
   case 138: /* for_expression: primary_expression  */
-#line 2500 "libyara/grammar.y"
+#line 2506 "libyara/grammar.y"
       {
         if ((yyvsp[0].expression).type == EXPRESSION_TYPE_INTEGER && !IS_UNDEFINED((yyvsp[0].expression).value.integer))
         {
@@ -4660,57 +4666,57 @@ yyreduce:
 
         (yyval.expression).value.integer = (yyvsp[0].expression).value.integer;
       }
-#line 4664 "libyara/grammar.c"
+#line 4670 "libyara/grammar.c"
     break;
 
   case 139: /* for_expression: for_quantifier  */
-#line 2556 "libyara/grammar.y"
+#line 2562 "libyara/grammar.y"
       {
         (yyval.expression).value.integer = (yyvsp[0].expression).value.integer;
       }
-#line 4672 "libyara/grammar.c"
+#line 4678 "libyara/grammar.c"
     break;
 
   case 140: /* for_quantifier: "<all>"  */
-#line 2563 "libyara/grammar.y"
+#line 2569 "libyara/grammar.y"
       {
         yr_parser_emit_push_const(yyscanner, YR_UNDEFINED);
         (yyval.expression).type = EXPRESSION_TYPE_QUANTIFIER;
         (yyval.expression).value.integer = FOR_EXPRESSION_ALL;
      }
-#line 4682 "libyara/grammar.c"
+#line 4688 "libyara/grammar.c"
     break;
 
   case 141: /* for_quantifier: "<any>"  */
-#line 2569 "libyara/grammar.y"
+#line 2575 "libyara/grammar.y"
       {
         yr_parser_emit_push_const(yyscanner, 1);
         (yyval.expression).type = EXPRESSION_TYPE_QUANTIFIER;
         (yyval.expression).value.integer = FOR_EXPRESSION_ANY;
       }
-#line 4692 "libyara/grammar.c"
+#line 4698 "libyara/grammar.c"
     break;
 
   case 142: /* for_quantifier: "<none>"  */
-#line 2575 "libyara/grammar.y"
+#line 2581 "libyara/grammar.y"
       {
         yr_parser_emit_push_const(yyscanner, 0);
         (yyval.expression).type = EXPRESSION_TYPE_QUANTIFIER;
         (yyval.expression).value.integer = FOR_EXPRESSION_NONE;
       }
-#line 4702 "libyara/grammar.c"
+#line 4708 "libyara/grammar.c"
     break;
 
   case 143: /* primary_expression: '(' primary_expression ')'  */
-#line 2585 "libyara/grammar.y"
+#line 2591 "libyara/grammar.y"
       {
         (yyval.expression) = (yyvsp[-1].expression);
       }
-#line 4710 "libyara/grammar.c"
+#line 4716 "libyara/grammar.c"
     break;
 
   case 144: /* primary_expression: "<filesize>"  */
-#line 2589 "libyara/grammar.y"
+#line 2595 "libyara/grammar.y"
       {
         fail_if_error(yr_parser_emit(
             yyscanner, OP_FILESIZE, NULL));
@@ -4718,11 +4724,11 @@ yyreduce:
         (yyval.expression).type = EXPRESSION_TYPE_INTEGER;
         (yyval.expression).value.integer = YR_UNDEFINED;
       }
-#line 4722 "libyara/grammar.c"
+#line 4728 "libyara/grammar.c"
     break;
 
   case 145: /* primary_expression: "<entrypoint>"  */
-#line 2597 "libyara/grammar.y"
+#line 2603 "libyara/grammar.y"
       {
         yywarning(yyscanner,
             "using deprecated \"entrypoint\" keyword. Use the \"entry_point\" "
@@ -4734,11 +4740,11 @@ yyreduce:
         (yyval.expression).type = EXPRESSION_TYPE_INTEGER;
         (yyval.expression).value.integer = YR_UNDEFINED;
       }
-#line 4738 "libyara/grammar.c"
+#line 4744 "libyara/grammar.c"
     break;
 
   case 146: /* primary_expression: "integer function" '(' primary_expression ')'  */
-#line 2609 "libyara/grammar.y"
+#line 2615 "libyara/grammar.y"
       {
         check_type((yyvsp[-1].expression), EXPRESSION_TYPE_INTEGER, "intXXXX or uintXXXX");
 
@@ -4752,33 +4758,33 @@ yyreduce:
         (yyval.expression).type = EXPRESSION_TYPE_INTEGER;
         (yyval.expression).value.integer = YR_UNDEFINED;
       }
-#line 4756 "libyara/grammar.c"
+#line 4762 "libyara/grammar.c"
     break;
 
   case 147: /* primary_expression: "integer number"  */
-#line 2623 "libyara/grammar.y"
+#line 2629 "libyara/grammar.y"
       {
         fail_if_error(yr_parser_emit_push_const(yyscanner, (yyvsp[0].integer)));
 
         (yyval.expression).type = EXPRESSION_TYPE_INTEGER;
         (yyval.expression).value.integer = (yyvsp[0].integer);
       }
-#line 4767 "libyara/grammar.c"
+#line 4773 "libyara/grammar.c"
     break;
 
   case 148: /* primary_expression: "floating point number"  */
-#line 2630 "libyara/grammar.y"
+#line 2636 "libyara/grammar.y"
       {
         fail_if_error(yr_parser_emit_with_arg_double(
             yyscanner, OP_PUSH, (yyvsp[0].double_), NULL, NULL));
 
         (yyval.expression).type = EXPRESSION_TYPE_FLOAT;
       }
-#line 4778 "libyara/grammar.c"
+#line 4784 "libyara/grammar.c"
     break;
 
   case 149: /* primary_expression: "text string"  */
-#line 2637 "libyara/grammar.y"
+#line 2643 "libyara/grammar.y"
       {
         YR_ARENA_REF ref;
 
@@ -4803,11 +4809,11 @@ yyreduce:
         (yyval.expression).type = EXPRESSION_TYPE_STRING;
         (yyval.expression).value.sized_string_ref = ref;
       }
-#line 4807 "libyara/grammar.c"
+#line 4813 "libyara/grammar.c"
     break;
 
   case 150: /* primary_expression: "string count" "<in>" range  */
-#line 2662 "libyara/grammar.y"
+#line 2668 "libyara/grammar.y"
       {
         int result = yr_parser_reduce_string_identifier(
             yyscanner, (yyvsp[-2].c_string), OP_COUNT_IN, YR_UNDEFINED);
@@ -4819,11 +4825,11 @@ yyreduce:
         (yyval.expression).type = EXPRESSION_TYPE_INTEGER;
         (yyval.expression).value.integer = YR_UNDEFINED;
       }
-#line 4823 "libyara/grammar.c"
+#line 4829 "libyara/grammar.c"
     break;
 
   case 151: /* primary_expression: "string count"  */
-#line 2674 "libyara/grammar.y"
+#line 2680 "libyara/grammar.y"
       {
         int result = yr_parser_reduce_string_identifier(
             yyscanner, (yyvsp[0].c_string), OP_COUNT, YR_UNDEFINED);
@@ -4835,11 +4841,11 @@ yyreduce:
         (yyval.expression).type = EXPRESSION_TYPE_INTEGER;
         (yyval.expression).value.integer = YR_UNDEFINED;
       }
-#line 4839 "libyara/grammar.c"
+#line 4845 "libyara/grammar.c"
     break;
 
   case 152: /* primary_expression: "string offset" '[' primary_expression ']'  */
-#line 2686 "libyara/grammar.y"
+#line 2692 "libyara/grammar.y"
       {
         int result = yr_parser_reduce_string_identifier(
             yyscanner, (yyvsp[-3].c_string), OP_OFFSET, YR_UNDEFINED);
@@ -4851,11 +4857,11 @@ yyreduce:
         (yyval.expression).type = EXPRESSION_TYPE_INTEGER;
         (yyval.expression).value.integer = YR_UNDEFINED;
       }
-#line 4855 "libyara/grammar.c"
+#line 4861 "libyara/grammar.c"
     break;
 
   case 153: /* primary_expression: "string offset"  */
-#line 2698 "libyara/grammar.y"
+#line 2704 "libyara/grammar.y"
       {
         int result = yr_parser_emit_push_const(yyscanner, 1);
 
@@ -4870,11 +4876,11 @@ yyreduce:
         (yyval.expression).type = EXPRESSION_TYPE_INTEGER;
         (yyval.expression).value.integer = YR_UNDEFINED;
       }
-#line 4874 "libyara/grammar.c"
+#line 4880 "libyara/grammar.c"
     break;
 
   case 154: /* primary_expression: "string length" '[' primary_expression ']'  */
-#line 2713 "libyara/grammar.y"
+#line 2719 "libyara/grammar.y"
       {
         int result = yr_parser_reduce_string_identifier(
             yyscanner, (yyvsp[-3].c_string), OP_LENGTH, YR_UNDEFINED);
@@ -4886,11 +4892,11 @@ yyreduce:
         (yyval.expression).type = EXPRESSION_TYPE_INTEGER;
         (yyval.expression).value.integer = YR_UNDEFINED;
       }
-#line 4890 "libyara/grammar.c"
+#line 4896 "libyara/grammar.c"
     break;
 
   case 155: /* primary_expression: "string length"  */
-#line 2725 "libyara/grammar.y"
+#line 2731 "libyara/grammar.y"
       {
         int result = yr_parser_emit_push_const(yyscanner, 1);
 
@@ -4905,11 +4911,11 @@ yyreduce:
         (yyval.expression).type = EXPRESSION_TYPE_INTEGER;
         (yyval.expression).value.integer = YR_UNDEFINED;
       }
-#line 4909 "libyara/grammar.c"
+#line 4915 "libyara/grammar.c"
     break;
 
   case 156: /* primary_expression: identifier  */
-#line 2740 "libyara/grammar.y"
+#line 2746 "libyara/grammar.y"
       {
         int result = ERROR_SUCCESS;
 
@@ -4956,11 +4962,11 @@ yyreduce:
 
         fail_if_error(result);
       }
-#line 4960 "libyara/grammar.c"
+#line 4966 "libyara/grammar.c"
     break;
 
   case 157: /* primary_expression: '-' primary_expression  */
-#line 2787 "libyara/grammar.y"
+#line 2793 "libyara/grammar.y"
       {
         int result = ERROR_SUCCESS;
 
@@ -4981,11 +4987,11 @@ yyreduce:
 
         fail_if_error(result);
       }
-#line 4985 "libyara/grammar.c"
+#line 4991 "libyara/grammar.c"
     break;
 
   case 158: /* primary_expression: primary_expression '+' primary_expression  */
-#line 2808 "libyara/grammar.y"
+#line 2814 "libyara/grammar.y"
       {
         int result = yr_parser_reduce_operation(
             yyscanner, "+", (yyvsp[-2].expression), (yyvsp[0].expression));
@@ -5020,11 +5026,11 @@ yyreduce:
 
         fail_if_error(result);
       }
-#line 5024 "libyara/grammar.c"
+#line 5030 "libyara/grammar.c"
     break;
 
   case 159: /* primary_expression: primary_expression '-' primary_expression  */
-#line 2843 "libyara/grammar.y"
+#line 2849 "libyara/grammar.y"
       {
         int result = yr_parser_reduce_operation(
             yyscanner, "-", (yyvsp[-2].expression), (yyvsp[0].expression));
@@ -5059,11 +5065,11 @@ yyreduce:
 
         fail_if_error(result);
       }
-#line 5063 "libyara/grammar.c"
+#line 5069 "libyara/grammar.c"
     break;
 
   case 160: /* primary_expression: primary_expression '*' primary_expression  */
-#line 2878 "libyara/grammar.y"
+#line 2884 "libyara/grammar.y"
       {
         int result = yr_parser_reduce_operation(
             yyscanner, "*", (yyvsp[-2].expression), (yyvsp[0].expression));
@@ -5097,11 +5103,11 @@ yyreduce:
 
         fail_if_error(result);
       }
-#line 5101 "libyara/grammar.c"
+#line 5107 "libyara/grammar.c"
     break;
 
   case 161: /* primary_expression: primary_expression '\\' primary_expression  */
-#line 2912 "libyara/grammar.y"
+#line 2918 "libyara/grammar.y"
       {
         int result = yr_parser_reduce_operation(
             yyscanner, "\\", (yyvsp[-2].expression), (yyvsp[0].expression));
@@ -5132,11 +5138,11 @@ yyreduce:
 
         fail_if_error(result);
       }
-#line 5136 "libyara/grammar.c"
+#line 5142 "libyara/grammar.c"
     break;
 
   case 162: /* primary_expression: primary_expression '%' primary_expression  */
-#line 2943 "libyara/grammar.y"
+#line 2949 "libyara/grammar.y"
       {
         check_type((yyvsp[-2].expression), EXPRESSION_TYPE_INTEGER, "%");
         check_type((yyvsp[0].expression), EXPRESSION_TYPE_INTEGER, "%");
@@ -5158,11 +5164,11 @@ yyreduce:
           fail_if_error(ERROR_DIVISION_BY_ZERO);
         }
       }
-#line 5162 "libyara/grammar.c"
+#line 5168 "libyara/grammar.c"
     break;
 
   case 163: /* primary_expression: primary_expression '^' primary_expression  */
-#line 2965 "libyara/grammar.y"
+#line 2971 "libyara/grammar.y"
       {
         check_type((yyvsp[-2].expression), EXPRESSION_TYPE_INTEGER, "^");
         check_type((yyvsp[0].expression), EXPRESSION_TYPE_INTEGER, "^");
@@ -5172,11 +5178,11 @@ yyreduce:
         (yyval.expression).type = EXPRESSION_TYPE_INTEGER;
         (yyval.expression).value.integer = OPERATION(^, (yyvsp[-2].expression).value.integer, (yyvsp[0].expression).value.integer);
       }
-#line 5176 "libyara/grammar.c"
+#line 5182 "libyara/grammar.c"
     break;
 
   case 164: /* primary_expression: primary_expression '&' primary_expression  */
-#line 2975 "libyara/grammar.y"
+#line 2981 "libyara/grammar.y"
       {
         check_type((yyvsp[-2].expression), EXPRESSION_TYPE_INTEGER, "^");
         check_type((yyvsp[0].expression), EXPRESSION_TYPE_INTEGER, "^");
@@ -5186,11 +5192,11 @@ yyreduce:
         (yyval.expression).type = EXPRESSION_TYPE_INTEGER;
         (yyval.expression).value.integer = OPERATION(&, (yyvsp[-2].expression).value.integer, (yyvsp[0].expression).value.integer);
       }
-#line 5190 "libyara/grammar.c"
+#line 5196 "libyara/grammar.c"
     break;
 
   case 165: /* primary_expression: primary_expression '|' primary_expression  */
-#line 2985 "libyara/grammar.y"
+#line 2991 "libyara/grammar.y"
       {
         check_type((yyvsp[-2].expression), EXPRESSION_TYPE_INTEGER, "|");
         check_type((yyvsp[0].expression), EXPRESSION_TYPE_INTEGER, "|");
@@ -5200,11 +5206,11 @@ yyreduce:
         (yyval.expression).type = EXPRESSION_TYPE_INTEGER;
         (yyval.expression).value.integer = OPERATION(|, (yyvsp[-2].expression).value.integer, (yyvsp[0].expression).value.integer);
       }
-#line 5204 "libyara/grammar.c"
+#line 5210 "libyara/grammar.c"
     break;
 
   case 166: /* primary_expression: '~' primary_expression  */
-#line 2995 "libyara/grammar.y"
+#line 3001 "libyara/grammar.y"
       {
         check_type((yyvsp[0].expression), EXPRESSION_TYPE_INTEGER, "~");
 
@@ -5214,11 +5220,11 @@ yyreduce:
         (yyval.expression).value.integer = ((yyvsp[0].expression).value.integer == YR_UNDEFINED) ?
             YR_UNDEFINED : ~((yyvsp[0].expression).value.integer);
       }
-#line 5218 "libyara/grammar.c"
+#line 5224 "libyara/grammar.c"
     break;
 
   case 167: /* primary_expression: primary_expression "<<" primary_expression  */
-#line 3005 "libyara/grammar.y"
+#line 3011 "libyara/grammar.y"
       {
         int result;
 
@@ -5238,11 +5244,11 @@ yyreduce:
 
         fail_if_error(result);
       }
-#line 5242 "libyara/grammar.c"
+#line 5248 "libyara/grammar.c"
     break;
 
   case 168: /* primary_expression: primary_expression ">>" primary_expression  */
-#line 3025 "libyara/grammar.y"
+#line 3031 "libyara/grammar.y"
       {
         int result;
 
@@ -5262,19 +5268,19 @@ yyreduce:
 
         fail_if_error(result);
       }
-#line 5266 "libyara/grammar.c"
+#line 5272 "libyara/grammar.c"
     break;
 
   case 169: /* primary_expression: regexp  */
-#line 3045 "libyara/grammar.y"
+#line 3051 "libyara/grammar.y"
       {
         (yyval.expression) = (yyvsp[0].expression);
       }
-#line 5274 "libyara/grammar.c"
+#line 5280 "libyara/grammar.c"
     break;
 
 
-#line 5278 "libyara/grammar.c"
+#line 5284 "libyara/grammar.c"
 
       default: break;
     }
@@ -5498,5 +5504,5 @@ yyreturnlab:
   return yyresult;
 }
 
-#line 3050 "libyara/grammar.y"
+#line 3056 "libyara/grammar.y"
 
